@@ -61,3 +61,16 @@ def watch_corpus(ctx, prop, tier, cfg, world):
     p = sh([os.path.join(ctx['bindir'], 'templ'), 'generate', '-path', os.path.join(d, 'fam')], cwd=ctx['src'], env=goenv(), check=False)
     if p.returncode != 0:
         raise Infra('templ generate failed on the watch corpus:\n' + p.stdout[-3000:])
+
+
+def render_devfiles(ctx, prop, tier, cfg, world):
+    """Write the development-mode text files of the corpus once, with the real watch-mode event handler
+    (inside the world's own test binary); the workers copy them instead of generating them again."""
+    d = os.path.join(ctx['scratch'], 'devfiles')
+    os.makedirs(d, exist_ok=True)
+    b = ctx['binaries'].get('default') or list(ctx['binaries'].values())[0]
+    e = goenv(dict(ctx['env'], VSIM_DEVFILES_OUT=d))
+    p = sh([b, '-test.run', '^TestDevFiles$', '-test.count', '1'], cwd=os.path.dirname(b), env=e, check=False, timeout=600)
+    if p.returncode != 0 or not os.listdir(d):
+        raise Infra('writing the development-mode text files failed:\n' + p.stdout[-3000:])
+    ctx['env']['VSIM_DEVFILES'] = d
